@@ -2,7 +2,8 @@
 """Confirm a seeded change produced by an independent agent and run the checks against it.
 usage: tools/seed.py <property id> <N> [extra check ids...]
   1. in the scratch worktree /tmp/wt/<id>: patch applies, demo fails with it, passes without it;
-  2. apply the patch to /repo, run ./check <id> quick (and extra ids), record exit codes / VIOLATION lines, undo the patch;
+  2. apply the patch to the scratch worktree /tmp/wt/CLEAN (at /repo's HEAD; never to /repo), run ./check <id> quick (and extra ids) against it via
+     PSV_REPO, record exit codes / VIOLATION lines, revert the worktree;
   3. store patch, demo, meta.json under /verif/seeded/<id>-<N>/.
 """
 import json, os, shutil, subprocess, sys
@@ -35,23 +36,28 @@ res["tests_with_change"] = dict(failed=tw[0], summary=tw[1]); res["tests_without
 res["suite_subset_same_with_and_without"] = tw[0] == two[0]
 res["tests_files"] = TESTS
 res["demo_output_with_change"] = o1[-600:]
-# checks against the change
-rc, o = sh(f"git -C /repo apply {diff}")
+# checks against the change: applied to the scratch worktree /tmp/wt/CLEAN (same commit as /repo), never to /repo itself
+W = "/tmp/wt/CLEAN"
+head = sh("git -C /repo rev-parse HEAD")[1].strip()
+sh(f"git -C {W} checkout -q -- . && git -C {W} checkout -q --detach {head}")
+rc, o = sh(f"git -C {W} apply {diff}")
 assert rc == 0, o
+if needs_build: sh("/venv/bin/python setup.py build_ext -i", W)
 checks = {}
 try:
     for c in [pid] + extra:
-        rcc, oc = sh(f"./check {c} quick", "/verif", 3600)
+        rcc, oc = sh(f"PSV_REPO={W} ./check {c} quick", "/verif", 3600)
         lines = [l for l in oc.splitlines() if l.startswith(("VIOLATION", "HARNESS-ERROR", "INCONCLUSIVE", "  harness=", "["))]
         checks[c] = dict(exit=rcc, lines=[l[:400] for l in lines[:8]])
 finally:
-    sh("git -C /repo checkout -- .")
+    sh(f"git -C {W} checkout -q -- .")
+    if needs_build: sh("/venv/bin/python setup.py build_ext -i", W)
 res["checks"] = checks
 res["caught"] = any(v["exit"] == 1 for v in checks.values())
 d = f"/verif/seeded/{pid}-{n}"
 os.makedirs(d, exist_ok=True)
 shutil.copy(diff, f"{d}/patch.diff"); shutil.copy(demo, f"{d}/demo.py")
 m = json.load(open(meta)) if os.path.exists(meta) else {}
-m.update(property=pid, confirmed=res, what_was_run=f"tools/seed.py {pid} {n} {' '.join(extra)}: demo run with and without the patch in a scratch worktree; ./check <id> quick with the patch applied to /repo, then undone")
+m.update(property=pid, confirmed=res, what_was_run=f"tools/seed.py {pid} {n} {' '.join(extra)}: demo run with and without the patch in a scratch worktree; ./check <id> quick against a scratch worktree of /repo's HEAD with the patch applied (PSV_REPO), then reverted")
 json.dump(m, open(f"{d}/meta.json", "w"), indent=1)
 print(json.dumps({k: v for k, v in res.items() if k != "demo_output_with_change"}, indent=1)[:2500])
